@@ -110,8 +110,28 @@ def scenario(ctx, lines, pend):
     if wmode in (2, 3):
         wr = np.array([rng.uniform(0.5, 2.0) for _ in range(n)])
         refcat['weight'] = wr
+    # sources without weight (in either catalog) take no part in the fit - also not in the centre about which the
+    # fit is made and to which fit2ref refers the reported shift - but must land on the reference all the same
+    nzero = 0
+    if wmode and n >= MINOBJ[fitgeom] + 3 and rng.random() < 0.5:
+        kz = rng.randint(1, max(1, min(n - MINOBJ[fitgeom] - 2, n // 3)))
+        Z = rng.sample(range(n), kz)
+        keep = np.ones(n, dtype=bool)
+        keep[Z] = False
+        cpos = np.vstack([px[keep] - px[keep].mean(), py[keep] - py[keep].mean()])
+        spread = np.linalg.svd(cpos, compute_uv=False)
+        if keep.sum() >= 3 and spread[-1] > 0.05 * min(nx, ny):
+            for i in Z:
+                tgt = rng.choice([w_ for w_ in (wi, wr) if w_ is not None])
+                tgt[i] = 0.0
+            if wi is not None:
+                imcat['weight'] = wi
+            if wr is not None:
+                refcat['weight'] = wr
+            nzero = kz
+            ctx.branch('zero-weight-sources')
     entry = rng.choice(['fit_wcs', 'align_wcs'])
-    case = {'kind': info['kind'], 'info': info, 'prior': [p[0] for p in prior], 'fitgeom': fitgeom, 'n': n,
+    case = {'kind': info['kind'], 'info': info, 'prior': [p[0] for p in prior], 'fitgeom': fitgeom, 'n': n, 'nzero': nzero,
             'G': [G.M.tolist(), G.t.tolist()], 'ref': bool(use_ref), 'noisy': noisy, 'wmode': wmode,
             'entry': entry, 'big': big}
     ctx.case(case, nontrivial=bool(prior) or fitgeom != 'shift',
